@@ -73,6 +73,8 @@ pub enum Cond {
     And(Box<Cond>, Box<Cond>),
     Or(Box<Cond>, Box<Cond>),
     Paren(Box<Cond>),
+    /// the literal `true` (loop headers only: `while true do … break … end`)
+    True,
 }
 
 #[derive(Clone, Copy, Debug, PartialEq, Eq, Serialize, Deserialize)]
@@ -98,6 +100,13 @@ pub enum LoopKind {
     Repeat,
     ForNum,
     ForIn,
+    /// `while true do`: the body is entered unconditionally and only `break` leaves the loop
+    WhileTrue,
+}
+
+/// the header is the literal `true` only when no counter is and-ed to the condition
+pub fn while_kind(c: &Cond, bound: Bound) -> LoopKind {
+    if matches!(c, Cond::True) && !matches!(bound, Bound::CondLimit(_)) { LoopKind::WhileTrue } else { LoopKind::While }
 }
 
 impl LoopKind {
@@ -107,6 +116,7 @@ impl LoopKind {
             LoopKind::Repeat => "repeat",
             LoopKind::ForNum => "fornum",
             LoopKind::ForIn => "forin",
+            LoopKind::WhileTrue => "while-true",
         }
     }
 }
@@ -186,6 +196,7 @@ impl Norm {
     fn cond(&self, c: &Cond) -> Cond {
         match c {
             Cond::Opaque(k) => Cond::Opaque(k % N_OPAQUE),
+            Cond::True => Cond::True,
             Cond::Truthy(v) => Cond::Truthy(self.var(*v)),
             Cond::NilCmp { var, ne, flip } => Cond::NilCmp { var: self.var(*var), ne: *ne, flip: *flip },
             Cond::TypeCmp { var, ty, ne, flip } => Cond::TypeCmp { var: self.var(*var), ty: ty % 6, ne: *ne, flip: *flip },
@@ -349,6 +360,7 @@ pub fn normalize(p: &Prog) -> Prog {
 pub fn cond_text(c: &Cond) -> String {
     match c {
         Cond::Opaque(k) => format!("__c{}", k + 1),
+        Cond::True => "true".into(),
         Cond::Truthy(v) => VAR_NAMES[*v as usize].to_string(),
         Cond::NilCmp { var, ne, flip } => {
             let op = if *ne { "~=" } else { "==" };
@@ -361,7 +373,7 @@ pub fn cond_text(c: &Cond) -> String {
         }
         Cond::Not(x) => match **x {
             // `not not c` stacks the operators directly; the parenthesised spelling is Not(Paren(Not(c)))
-            Cond::Opaque(_) | Cond::Truthy(_) | Cond::Paren(_) | Cond::Not(_) => format!("not {}", cond_text(x)),
+            Cond::Opaque(_) | Cond::Truthy(_) | Cond::Paren(_) | Cond::Not(_) | Cond::True => format!("not {}", cond_text(x)),
             _ => format!("not ({})", cond_text(x)),
         },
         Cond::And(x, y) => format!("{} and {}", cond_operand(x), cond_operand(y)),
@@ -382,6 +394,7 @@ pub fn cond_skeleton(c: &Cond, of: u8) -> String {
     let n = |v: &u8| if *v == of { "v" } else { "w" };
     match c {
         Cond::Opaque(_) => "C".into(),
+        Cond::True => "true".into(),
         Cond::Truthy(v) => n(v).into(),
         Cond::NilCmp { var, ne, .. } => format!("{}{}nil", n(var), if *ne { "~=" } else { "==" }),
         Cond::TypeCmp { var, ne, .. } => format!("type({}){}T", n(var), if *ne { "~=" } else { "==" }),
@@ -394,7 +407,7 @@ pub fn cond_skeleton(c: &Cond, of: u8) -> String {
 
 pub fn cond_mentions(c: &Cond, v: u8) -> bool {
     match c {
-        Cond::Opaque(_) => false,
+        Cond::Opaque(_) | Cond::True => false,
         Cond::Truthy(x) => *x == v,
         Cond::NilCmp { var, .. } | Cond::TypeCmp { var, .. } => *var == v,
         Cond::Not(x) | Cond::Paren(x) => cond_mentions(x, v),
@@ -658,6 +671,9 @@ pub struct Origin {
     pub copied_from: Option<u8>,
     /// address of the assigning statement in the normalized program (0 = initial declaration)
     pub site: usize,
+    /// the assigning statement has (also) run while every enclosing loop was in its first iteration, i.e. on the
+    /// straight pass through the loop bodies that an analysis without back edges walks
+    pub first_pass: bool,
 }
 
 #[derive(Clone, Copy, Debug, PartialEq, Eq)]
@@ -724,6 +740,9 @@ pub struct Interp<'a> {
     limit: u32,
     /// lexical loop kinds of the current function
     loop_kinds: Vec<LoopKind>,
+    /// iteration number (1-based) of every enclosing loop of the current function
+    loop_iters: Vec<u32>,
+    first_pass_sites: std::collections::HashSet<(usize, u8)>,
     frames: Vec<LoopFrame>,
     pub loop_stats: &'a mut HashMap<usize, LoopStat>,
     /// assignment site → bit mask of the runtime types it assigned (merged over runs by the caller)
@@ -741,13 +760,33 @@ impl<'a> Interp<'a> {
     }
     /// The loop a body assignment is charged to: the innermost enclosing loop (same function) whose body
     /// may run zero times (while / numeric for / generic for).  A `repeat` body always runs and its exit
-    /// path goes through the body's end, so it is transparent unless every enclosing loop is a `repeat`.
+    /// path goes through the body's end, so it is transparent unless every enclosing loop is a `repeat` or `while true`.
     fn attributed_loop(&self) -> Option<LoopKind> {
-        self.loop_kinds.iter().rev().find(|k| **k != LoopKind::Repeat).or(self.loop_kinds.last()).copied()
+        // `while true` is entered unconditionally too: like `repeat` it is transparent for this purpose
+        // among loops that are all entered unconditionally, a `repeat` (whose `until` has no back edge) takes the charge
+        self.loop_kinds
+            .iter()
+            .rev()
+            .find(|k| !matches!(**k, LoopKind::Repeat | LoopKind::WhileTrue))
+            .or(self.loop_kinds.iter().find(|k| **k == LoopKind::Repeat))
+            .or(self.loop_kinds.first())
+            .copied()
+    }
+    /// has statement `site` produced a value of type `ty` while every enclosing loop was in its first iteration?
+    fn first_pass(&mut self, site: usize, ty: u8) -> bool {
+        if self.loop_iters.iter().all(|i| *i <= 1) {
+            self.first_pass_sites.insert((site, ty));
+        }
+        self.first_pass_sites.contains(&(site, ty))
     }
     fn rhs(&mut self, r: &Rhs, reassigned: bool, site: usize) -> Val {
         let here = self.attributed_loop();
-        let origin = Origin { in_loop: here, reassigned, copied: matches!(r, Rhs::Var(_)), copied_from: if let Rhs::Var(w) = r { Some(*w) } else { None }, site };
+        let ty = match r {
+            Rhs::Lit(l) => l.ty(),
+            Rhs::Var(v) => self.lookup(*v).ty,
+        };
+        let first_pass = self.first_pass(site, ty);
+        let origin = Origin { in_loop: here, reassigned, copied: matches!(r, Rhs::Var(_)), copied_from: if let Rhs::Var(w) = r { Some(*w) } else { None }, site, first_pass };
         let val = match r {
             Rhs::Lit(l) => Val { ty: l.ty(), truthy: l.truthy(), origin },
             Rhs::Var(v) => {
@@ -762,6 +801,7 @@ impl<'a> Interp<'a> {
     fn cond(&self, c: &Cond) -> bool {
         match c {
             Cond::Opaque(k) => self.env >> k & 1 == 1,
+            Cond::True => true,
             Cond::Truthy(v) => self.lookup(*v).truthy,
             Cond::NilCmp { var, ne, .. } => (self.lookup(*var).ty == 0) != *ne,
             Cond::TypeCmp { var, ty, ne, .. } => (self.lookup(*var).ty == *ty) != *ne,
@@ -799,11 +839,13 @@ impl<'a> Interp<'a> {
         }
         self.frames.push(LoopFrame { key: key(s), entry_types });
         self.loop_kinds.push(kind);
+        self.loop_iters.push(0);
         self.loop_stats.entry(key(s)).or_default().kind = Some(kind);
     }
     fn leave_loop(&mut self, s: &Stmt, iterations: u32) {
         self.frames.pop();
         self.loop_kinds.pop();
+        self.loop_iters.pop();
         let st = self.loop_stats.entry(key(s)).or_default();
         if iterations == 0 {
             st.zero += 1;
@@ -825,7 +867,7 @@ impl<'a> Interp<'a> {
                 Stmt::Local(v, r) => {
                     let val = match r {
                         Some(r) => self.rhs(r, false, key(s)),
-                        None => Val { ty: 0, truthy: false, origin: Origin { in_loop: self.attributed_loop(), reassigned: false, copied: false, copied_from: None, site: key(s) } },
+                        None => Val { ty: 0, truthy: false, origin: Origin { in_loop: self.attributed_loop(), reassigned: false, copied: false, copied_from: None, site: key(s), first_pass: self.first_pass(key(s), 0) } },
                     };
                     self.scopes.push((*v, val));
                 }
@@ -861,9 +903,11 @@ impl<'a> Interp<'a> {
                 },
                 Stmt::Closure(_, b) => {
                     let saved_kinds = std::mem::take(&mut self.loop_kinds);
+                    let saved_iters = std::mem::take(&mut self.loop_iters);
                     let saved_frames = std::mem::take(&mut self.frames);
                     let f = self.block(b);
                     self.loop_kinds = saved_kinds;
+                    self.loop_iters = saved_iters;
                     self.frames = saved_frames;
                     if let Flow::Abort = f {
                         return Flow::Abort;
@@ -872,7 +916,7 @@ impl<'a> Interp<'a> {
                 Stmt::Return => return Flow::Return,
                 Stmt::Break => return Flow::Break,
                 Stmt::While(c, bound, b) => {
-                    self.enter_loop(s, LoopKind::While);
+                    self.enter_loop(s, while_kind(c, *bound));
                     let mut n = 0u32;
                     let mut iters = 0u32;
                     let mut out = Flow::Normal;
@@ -895,6 +939,9 @@ impl<'a> Interp<'a> {
                             }
                         }
                         iters += 1;
+                        if let Some(i) = self.loop_iters.last_mut() {
+                            *i += 1;
+                        }
                         match self.block(b) {
                             Flow::Normal => {}
                             Flow::Break => break,
@@ -927,6 +974,9 @@ impl<'a> Interp<'a> {
                             }
                         }
                         iters += 1;
+                        if let Some(i) = self.loop_iters.last_mut() {
+                            *i += 1;
+                        }
                         let mark = self.scopes.len();
                         let f = self.block_open(b);
                         let stop;
@@ -981,6 +1031,9 @@ impl<'a> Interp<'a> {
                 break;
             }
             iters += 1;
+                        if let Some(i) = self.loop_iters.last_mut() {
+                            *i += 1;
+                        }
             match self.block(b) {
                 Flow::Normal => {}
                 Flow::Break => break,
@@ -997,9 +1050,9 @@ impl<'a> Interp<'a> {
 
 /// runs a *normalized* program under one assignment of the opaque booleans
 pub fn interpret(p: &Prog, ids: &HashMap<usize, u32>, env: u8, loop_stats: &mut HashMap<usize, LoopStat>, site_types: &mut HashMap<usize, u8>) -> Run {
-    let mut it = Interp { env, ids, scopes: vec![], events: vec![], steps: 0, limit: 1500, loop_kinds: vec![], frames: vec![], loop_stats, site_types };
+    let mut it = Interp { env, ids, scopes: vec![], events: vec![], steps: 0, limit: 1500, loop_kinds: vec![], loop_iters: vec![], first_pass_sites: Default::default(), frames: vec![], loop_stats, site_types };
     for (i, l) in p.inits.iter().enumerate() {
-        it.scopes.push((i as u8, Val { ty: l.ty(), truthy: l.truthy(), origin: Origin { in_loop: None, reassigned: false, copied: false, copied_from: None, site: 0 } }));
+        it.scopes.push((i as u8, Val { ty: l.ty(), truthy: l.truthy(), origin: Origin { in_loop: None, reassigned: false, copied: false, copied_from: None, site: 0, first_pass: true } }));
     }
     let f = it.block_open(&p.body);
     Run { diverged: matches!(f, Flow::Abort), events: it.events }
@@ -1081,7 +1134,10 @@ pub fn probe_contexts(p: &Prog, ids: &HashMap<usize, u32>) -> HashMap<u32, Probe
                     collect_loops(b, &mut ctx.loops_before);
                 }
                 Stmt::While(c, _, b) | Stmt::Repeat(b, c, _) => {
-                    let kind = if matches!(s, Stmt::While(..)) { LoopKind::While } else { LoopKind::Repeat };
+                    let kind = match s {
+                        Stmt::While(c, bd, _) => while_kind(c, *bd),
+                        _ => LoopKind::Repeat,
+                    };
                     let mut inner = ctx.clone();
                     inner.in_loop = true;
                     walk(b, &inner, ids, out);
@@ -1160,6 +1216,7 @@ fn loop_cond() -> BoxedStrategy<Cond> {
         2 => (var(), 0u8..6).prop_map(|(var, ty)| Cond::TypeCmp { var, ty, ne: true, flip: false }),
         1 => var().prop_map(Cond::Truthy),
         2 => cond(),
+        2 => Just(Cond::True),
     ]
     .boxed()
 }
@@ -1204,6 +1261,10 @@ fn loop_stmt_with(blk: impl Strategy<Value = Vec<Stmt>> + Clone + 'static) -> Bo
         4 => (loop_cond(), bound(), blk.clone()).prop_map(|(c, bd, b)| {
             // a loop whose condition reads no variable cannot end by itself
             let bd = if bd == Bound::Natural && !cond_has_var(&c) { Bound::BreakAfter(1) } else { bd };
+            let bd = match (&c, bd) {
+                (Cond::True, Bound::CondLimit(k)) => Bound::BreakAfter(k),
+                _ => bd,
+            };
             Stmt::While(c, bd, b)
         }),
         3 => (blk.clone(), loop_cond(), bound()).prop_map(|(b, c, bd)| {
